@@ -379,7 +379,11 @@ class Engine:
         if isinstance(v, fractions.Fraction):
             return V.mk_frac(z3.RealVal(str(v)))
         if isinstance(v, float):
-            return self._const_obj("flt", v)
+            t = self._const_obj("flt", v)
+            import math as _math
+
+            st.assume(V.flt_isnan(V.Val.f(t)) == _math.isnan(v))  # a float literal knows whether it is NaN
+            return t
         if isinstance(v, tuple):
             return self.alloc_seq(st, tuple, [self.lift(x, st) for x in v])
         if isinstance(v, (Closure, BoundMethod, Model, type, types.FunctionType, types.BuiltinFunctionType, types.MethodType)):
